@@ -15,30 +15,30 @@ CHECKS = {
          "E1: all paths of the real streaming/temp-file code for symbolic content (<=5/8 bytes), caller offset and buffer size are confirmed by CrossHair/z3. E2: store_object with each of the four data kinds (solver-chosen stream offset) under each of the five store algorithms from an arbitrary symbolic store state returns cid = hashlib digest and true size and retrieve_object returns the bytes; calls on other pids leave the binding and object untouched (frame discharged by z3), which covers interleaved histories by induction.",
          BND + " hashlib trusted; recording hashlib stand-in in the E1 kernel.", "2/C01"),
  "C02": (STEP + "; structured symbolic spellings (algorithm x case mask x separator); per-instance algorithm list part of Inv",
-         "For every contract-accepted spelling of the 12 algorithms as additional_algorithm, checksum_algorithm and in get_hex_digest, from arbitrary symbolic store state: key set = 5 defaults + requested, values = hashlib digests; history independence by induction (instance algorithm list is in Inv and closed under every call; follow-up call on the same instance reports five keys).",
+         "For every contract-accepted spelling of the 12 algorithms as additional_algorithm, checksum_algorithm and in get_hex_digest, from arbitrary symbolic store state: key set = 5 defaults + requested, values = hashlib digests; history independence: the instance algorithm list is in Inv and closed under every call, and a fixed follow-up history gives identical results on the instance that served the call and on a fresh instance over a copy of the store. E1: CrossHair confirms _clean_algorithm for every case mask x separator of each of the 12 names.",
          BND + " Spellings limited to the structured template.", "2/C02"),
  "C03": (STEP + "; binding immutability and frame as z3 formulas",
          "For every Inv state and every store/tag/delete/delete_if_invalid call over the universe: bound pid => documented already-exists class and unchanged binding, every other pid's reference and list membership unchanged; unbound => binds; rebinding only via the delete transition. Inductive: all histories inside the universe.", BND, "2/C03"),
  "C04": (STEP + "; C04 as one z3 formula over all cids/pids",
          "For every Inv state and every call (nine methods, rejected calls, wrong validation data, metadata calls): forall cid: referenced-after and present-before => present-after with unchanged bytes, proved over all untouched pids at once; obj' = model (last delete removes the object).", BND, "2/C04"),
  "C05": (STEP + "; Inv closure and reference-model equality",
-         "For every Inv state and every call over the universe z3 shows Inv(post), post = model(pre, call), documented result class, no temp/_delete residue; delete_object succeeds from every partial condition the API can create (binding to a cid without object, shared lists with prefix pids). Inductive over histories of any length inside the universe.", BND, "2/C05"),
+         "For every Inv state and every call over the universe z3 shows Inv(post), post = model(pre, call), documented result class, no temp/_delete residue; delete_object succeeds from every partial condition the API can create (binding to a cid without object, shared lists with prefix/suffix pids). Inductive over histories of any length inside the universe. Instance state: after one call of each method a fixed follow-up history touching every method gives identical results on the used instance and on a fresh instance over a copy of the store.", BND, "2/C05"),
  "C06": (STEP + "; verdict oracle (hashlib, casefold, integer equality)",
          "Every (entry point, algorithm spelling, checksum variant incl. case and single-digit edits, size variant) from arbitrary symbolic prior state of the content (absent / unreferenced / referenced): verdict equals the oracle; invalid => mismatch class, no binding, no new object / object removed iff unreferenced, no temp file; valid => nothing rejected or deleted.", BND + " delete_if_invalid_object precondition: descriptor of a present object.", "2/C06"),
  "C11": (STEP + " on the metadata cells",
          "For every Inv state and every store/retrieve/delete_metadata and delete_object call: meta' = model(meta, call) by z3 (all other (pid, format) cells stay the untouched variables), retrieve returns the stored version, absent => ValueError / silent no-op; concatenation-colliding (pid, format) pairs in the universe.", BND, "2/C11"),
  "C15": ("CrossHair on _shard and the path builders (symbolic depth/width/digest) + pathsym enumeration of configuration selectors with a whole-tree oracle",
-         "E1: for symbolic depth 1-6, width 1-4 and digest strings of every real digest length CrossHair confirms the token structure of _shard and the path builders against an independent README-layout implementation. E2: all 120 configurations x a fixed script: the complete tree and hashstore.yaml equal the independently computed expected tree.",
+         "E1: for symbolic depth 1-6, width 1-4 and digest strings of every real digest length CrossHair confirms the token structure of _shard and the path builders against an independent README-layout implementation. E2: all 120 configurations x a fixed script (shared content, non-ASCII pid, empty content, formats incl. edge whitespace): the complete tree and hashstore.yaml equal the independently computed expected tree; one loaded module serves all five algorithms per worker.",
          "Finite configuration selectors: the solver enumerates (E2). Script identifiers are concrete. Independent layout implementation is the checker's.", "2/C15"),
  "C17": (STEP + " over an invalid-argument grammar (no mutating operation on the trace) + CrossHair lemmas on the argument checkers",
          "Every rejected call of the grammar (one and two bad parameters) and every read-only call from an arbitrary symbolic state: documented class, no mutating file-system operation on the trace, post = pre by z3. CrossHair confirms _check_string/_check_integer/_check_arg_format_id/checksum pairing for all strings (len<=3/4) and all ints.", BND + " Grammar is finite (E2).", "2/C17"),
  "C18": (STEP + " over adversarial identifier alphabets; containment on the trace; CrossHair lemma on _check_string",
-         "For each adversarial alphabet (separators, '..', dashes, glob/shell characters, 5000-char prefix pairs, case variants, non-BMP) frame of all other identifiers' cells by z3, model equality, and every created path hex-only under the store root. E1: accepted identifier has no line-breaking/strippable character (all Unicode, len<=3/4).",
+         "For each adversarial alphabet (separators, '..', dashes, glob/shell characters, 5000-char prefix pairs, case variants, non-BMP, Unicode normalisation forms, formats differing by edge whitespace) distinct identifiers are observed at distinct addresses (else a violation, confirmed natively), frame of all other identifiers' cells by z3, model equality, and every created path hex-only under the store root. E1: accepted identifier has no line-breaking/strippable character (all Unicode, len<=3/4).",
          BND + " Identifiers are concrete selectors (hashing is a C boundary).", "2/C18"),
  "C19": ("pathsym relational step: both procedures on two copies of one symbolic state in one path; z3 validity of post_A = post_B",
          "From every Inv state, for each validation variant (absent, correct incl. upper-case and non-default algorithm, wrong checksum, wrong size): one-call and in-steps procedures give the same outcome, cid, size, default digests and equal post-states (z3) when valid; the same mismatch class, unchanged pid binding and undisturbed referenced objects when invalid.", BND, "2/C19"),
  "C07": ("pathsym with a symbolic schedule vector (sched_n, wake_k) over a cooperative scheduler running the real methods in real threads; oracle = all sequential orders of the real code",
-         "Every pair (thorough: B=2 and 8 triples) of store_object/tag_object/delete_object/delete_if_invalid_object calls over 2 pids and 2 contents from four starting states: every feasible schedule within the preemption bound is executed; each call's result and the final abstract state must equal some sequential order (StoreObjectForPidAlreadyInProgress admitted only against a concurrent store of the same pid). Violations are replayed with real threads on the real file system under the recorded schedule. Four genuine races are listed as known findings (D6, D11, D12, D13).",
+         "Every pair (thorough: B=2 and 8 triples) of store_object/tag_object/delete_object/delete_if_invalid_object calls over 2 pids and 2 contents from four starting states: every feasible schedule within the preemption bound is executed; each call's result and the final abstract state must equal some sequential order (StoreObjectForPidAlreadyInProgress admitted only against a concurrent store of the same pid); three-thread spurious-wake scenarios for the cid, reference-pid and object-pid locks. Violations are replayed with real threads on the real file system under the recorded schedule. Four genuine races are listed as known findings (D6, D11, D12, D13).",
          "Preemption bound 1 (quick) / 2 (thorough); scheduling points = lock operations, file-system operations and existence probes; scheduler-aware model of threading.Lock/Condition (notify wakes one arbitrary waiter).", "2/C07"),
  "C08": ("pathsym: symbolic schedule vector (deadlock decided per explored interleaving) + symbolic fault point; lock lists and follow-up calls",
          "All C07/C12 pair scenarios plus mixed object/metadata pairs: no execution deadlocks or exceeds the step budget, all four locked-identifier lists are empty at quiescence and follow-up calls on the identifiers complete; the same after every single call that failed with an injected I/O error (once / persistent).",
@@ -53,13 +53,13 @@ CHECKS = {
          "Every pair (thorough: B=2 and triples) of store_metadata(v0/v1), retrieve_metadata, delete_metadata(format), delete_metadata(all), delete_object on one pid and two formats from four starting states: results and final documents equal some sequential order; a reader gets a complete version or a not-found error.",
          "Preemption bound 1 (quick) / 2 (thorough); same scheduler model as C07.", "2/C12"),
  "C13": ("pathsym with symbolic fault point, stickiness and errno over the file-system model; passthrough replay raising a real OSError",
-         "For every feasible (Inv state, call, fault site, once/persistent): success is reported only if post = model(pre, call); a failed store_object/tag_object leaves the binding unchanged and succeeds at once on retry; a failed store_metadata keeps the previous version; other pids untouched. One genuine defect (persistent failure on the cid list defeats the roll-back) is a known finding (D9).",
+         "For every feasible (Inv state, call, fault site, once/persistent): success is reported only if post = model(pre, call); a failed store_object/tag_object leaves the pid's reference and its membership in every cid list unchanged (bound stays bound, unbound stays unbound and not half-bound) and an unbound pid can be stored at once on retry; a failed store_metadata keeps the previous version; other pids untouched. One genuine defect (persistent failure on the cid list defeats the roll-back) is a known finding (D9).",
          "One fault per call; shutil.move's copy+unlink fallback modelled; quick tier: errno EIO, directories tied.", "2/C13"),
  "C16": ("pathsym relational step (both synchronisation modes in one path, z3 validity of post_th = post_mp) + schedule exploration through the multiprocessing code paths on scheduler-aware model primitives",
          "(i) every Inv state x every call of the C05/C11 menu gives equal results and post-states in both modes; (ii) the C07/C12 interleavings re-explored with USE_MULTIPROCESSING=True execute the _mp sections. Real forked processes contending through OS-level primitives are NOT covered (not applicable to symbolic execution): the claim is limited to the code paths under assumed primitive semantics.",
          "multiprocessing.Lock/Condition/Manager().list() assumed to behave like their threading counterparts.", "2/C16"),
  "C14": ("pathsym enumeration of z3-constrained configuration selector vectors (creation x reopening) over the real constructor on the environment model; zero-mutation trace check",
-         "For every feasible (creation configuration, reopening configuration / property shape / encoding) within the difference budget, on empty and populated stores: accepted <=> equal after integer coercion and then existing data is retrievable and addressed as before; refused => documented error class and no mutating file-system operation on the trace; unsupported creation algorithm and data directories without hashstore.yaml refused without changes.",
+         "For every feasible (creation configuration, reopening configuration / property shape / encoding) within the difference budget, on empty and populated stores: accepted <=> equal after integer coercion and then existing data is retrievable and addressed as before; refused => documented error class and no mutating file-system operation on the trace; unsupported creation algorithm and data directories without hashstore.yaml refused without changes. One loaded module serves thousands of stores at one path per worker (process-level caches are exercised; the native replay re-runs that history).",
          "Finite selectors (the solver enumerates the constrained product: 54k pairs quick); depth 1-5, width 1-4, 5+6 algorithm names, 2 namespaces, int/str encodings, 8 property shapes.", "2/C14"),
  "C20": ("pathsym relational step: client main() and the API call on two copies of one symbolic store state in one path; z3 validity of post_client = post_api",
          "Every client verb with subsets of its options (valid and invalid values, missing -pid/-path) from an arbitrary symbolic store state: same success/error as the API call with the same values, same error class for well-typed values, equal post-states (z3), stdout carries the API's cid/digests/path/content; create-store round trip client<->API. An omitted -formatid means the store's default namespace for all metadata verbs.",
